@@ -12,13 +12,14 @@ from ..model import qual
 from ..flow import Enumerator, RETURN, count, fmt
 from ..symx import Expander
 from ..anf import R, Unsupported
-from .. import anf, trip
+from .. import anf, trip, zerotrip
 from .common import struct_ob, formula_ob, guard, last_return
 from . import mcmc
 from ..report import AnalysisError
 
 FLOORS = {"trip-count": 4, "length-pair": 4, "run_for.progress": 2, "pool-order": 1,
-          "entry-resolves": 10, "equal-steps": 2, "ensemble-length": 1}
+          "entry-resolves": 10, "equal-steps": 2, "ensemble-length": 1,
+          "zero-trip": 6}
 
 
 def run(prog, tier):
@@ -99,6 +100,17 @@ def run(prog, tier):
         obs.append(struct_ob("length-pair", qual(c, fn) + (f"[{cname}]" if c.name != cname else ""),
                              not bad and bool(normal), msg or "no normal path", c.module.relpath, fn.lineno,
                              slots={"paths": len(paths)}))
+
+    # ---------------------------------------------------------------- zero-trip behaviour (m = 0, zero time budget)
+    for cname, mname in (("MarkovChain", "advance"), ("MarkovChain", "run_for"), ("EnsembleSampler", "advance"),
+                         ("ParallelTempering", "advance"), ("ParallelTempering", "run_for"), ("ParallelTempering", "take_steps")):
+        c, fn = prog.method(cname, mname)
+        undef, empties = zerotrip.analyse(fn)
+        probs_ = [f"`{n}` (line {l}) is read although it is only assigned inside a loop that may run zero times" for l, n in undef]
+        probs_ += [f"`{t}` (line {l}) may receive an empty list when the loop runs zero times" for l, t in empties]
+        obs.append(struct_ob("zero-trip", qual(c, fn), not probs_, "; ".join(probs_), c.module.relpath,
+                             (undef + empties)[0][0] if probs_ else fn.lineno,
+                             detail=",".join(sorted({n for _, n in undef} | {t for _, t in empties}))))
 
     # ---------------------------------------------------------------- run_for.progress
     c, rf = prog.method("MarkovChain", "run_for")
